@@ -16,7 +16,7 @@ RULE = (
     "'.', 'N.', random bytes, another pickle) x delivery (bytes, bytearray, memoryview, BytesIO at "
     "offset 0 and at a non-zero offset, real file, seekable raw stream, non-seekable stream); and "
     "concatenations of 1..6 pickles. Oracle: n = end of the first pickle by pickletools.genops "
-    "(cross-checked with the stock unpickler's tell() for plain data): dumps() == data[:n]; "
+    "(cross-checked with the stock unpickler's tell() for plain data): dumps() == data[:n] and dump(file) writes the same; "
     "concatenation of opcode .data == dumps(); seekable streams are left at start+n with the "
     "trailing bytes readable and unchanged; StackedPickle.load(concat) has exactly k elements "
     "whose dumps() are the k inputs. Refusals (unimplemented opcode) are counted, not failures. "
@@ -197,6 +197,22 @@ def check_first(first, trailing, delivery, plain=False, scratch=None):
         cat = b"".join(op.data for op in p)
         if cat != out:
             return Failure(case, "concatenation of opcode data differs from dumps()"), "parsed"
+        # the other re-serialiser (the one the CLI writes its output with)
+        sink = io.BytesIO()
+        try:
+            p.dump(sink)
+        except Exception as e:  # noqa: BLE001
+            return (
+                Failure(case, f"{first[:80]!r} was parsed ({delivery}) but dump(file) of the untouched "
+                        f"result raises {type(e).__name__}: {e}"),
+                "parsed",
+            )
+        if sink.getvalue() != first:
+            return (
+                Failure(case, f"dump(file) of {first[:80]!r}... ({len(first)} bytes, delivered as {delivery}) "
+                        f"writes {len(sink.getvalue())} bytes that differ from the input"),
+                "parsed",
+            )
         if delivery in ("bytesio", "bytesio_offset", "file", "file_offset", "raw_seekable"):
             pos = src.tell()
             if pos != start + n:
@@ -252,8 +268,13 @@ def check_stack(parts, delivery="bytes"):
         return None, "refused"
     try:
         got = [p.dumps() for p in sp]
+        sink = io.BytesIO()
+        for p in sp:
+            p.dump(sink)
     except Exception as e:  # noqa: BLE001
         return Failure(case, f"re-serialising an untouched stack element raises {type(e).__name__}: {e}"), "stack"
+    if sink.getvalue() != b"".join(got):
+        return Failure(case, "dump(file) of the stack elements in order differs from their dumps()"), "stack"
     if len(got) != len(parts):
         return (
             Failure(case, f"stack of {len(parts)} pickles parsed as {len(got)} elements"),
